@@ -89,6 +89,8 @@ type Transport struct {
 	Name         string
 	// LastWire is the wire-level form of the most recent response.
 	LastWire *Response
+	// Observe, if set, sees every request (with its body) before the peer does.
+	Observe func(req *http.Request, body []byte)
 	seq      int
 	// Cancel, when set, is used by the Cancel* faults to cancel the caller's context.
 	Cancel context.CancelFunc
@@ -349,6 +351,9 @@ func (t *Transport) RoundTrip(req *http.Request) (*http.Response, error) {
 		closeBody()
 	}
 	ex.BodyLen = len(body)
+	if t.Observe != nil {
+		t.Observe(req, body)
+	}
 	if t.KeepBodies {
 		ex.Body = body
 	}
